@@ -19,7 +19,7 @@ pub fn generate(prop: &str, tier: &str, seed: u64, out: &str, shards: usize, his
         "C02" => gen_c02(&asm, &mut mach, &mut rng, &mut sh, thorough),
         "C03" => gen_c03(&asm, &mut mach, &mut rng, &mut sh, thorough),
         "C06" => gen_c06(&asm, &mut mach, &mut rng, &mut sh, thorough),
-        "C08" | "C12" | "C16" | "C17" | "C18" | "C20" => crate::checks3::gen_driver(prop, &mut rng, &mut sh, out, thorough, histories),
+        "C08" | "C12" | "C14" | "C16" | "C17" | "C18" | "C20" => crate::checks3::gen_driver(prop, &mut rng, &mut sh, out, thorough, histories),
         "C04" => crate::checks2::gen_c04(&asm, &mut mach, &mut rng, &mut sh, thorough),
         "C05" => {
             crate::checks2::gen_c05(&asm, &mut mach, &mut rng, &mut sh, thorough);
